@@ -404,9 +404,11 @@ impl ShellVariable {
 
                     let mut new_value;
                     if treat_as_int {
-                        new_value = (existing_value.parse::<i64>().unwrap_or(0)
-                            + value.parse::<i64>().unwrap_or(0))
-                        .to_string();
+                        new_value = existing_value
+                            .parse::<i64>()
+                            .unwrap_or(0)
+                            .wrapping_add(value.parse::<i64>().unwrap_or(0))
+                            .to_string();
                     } else {
                         new_value = existing_value.to_owned();
                         new_value.push_str(value.as_str());
@@ -425,9 +427,11 @@ impl ShellVariable {
 
                     let mut new_value;
                     if treat_as_int {
-                        new_value = (existing_value.parse::<i64>().unwrap_or(0)
-                            + value.parse::<i64>().unwrap_or(0))
-                        .to_string();
+                        new_value = existing_value
+                            .parse::<i64>()
+                            .unwrap_or(0)
+                            .wrapping_add(value.parse::<i64>().unwrap_or(0))
+                            .to_string();
                     } else {
                         new_value = existing_value.to_owned();
                         new_value.push_str(value.as_str());
